@@ -314,6 +314,37 @@ func main() {
 		}
 	}
 
+	// 3c. sticky round robin: requests carrying affinity cookies look their server up in the list Servers() returned to
+	// them (outside the balancer's lock) while administration changes the pool and inspectors read the list
+	{
+		scenarios++
+		rr, _ := roundrobin.New(ok, roundrobin.EnableStickySession(roundrobin.NewStickySession("aff")))
+		urls := []*url.URL{mustURL("http://a:80"), mustURL("http://b:80"), mustURL("http://c:80"), mustURL("http://d:80")}
+		_ = rr.UpsertServer(urls[0])
+		_ = rr.UpsertServer(urls[1])
+		parallel(G, N, func(gi, i int) {
+			switch {
+			case gi == 0:
+				u := urls[2+i%2]
+				if i%4 < 2 {
+					_ = rr.UpsertServer(u, roundrobin.Weight(1+i%3))
+				} else {
+					_ = rr.RemoveServer(u)
+				}
+			case gi == 1:
+				n := 0
+				for _, u := range rr.Servers() {
+					n += len(u.Host)
+				}
+				_ = n
+			default:
+				req := request("10.0.0.3")
+				req.AddCookie(&http.Cookie{Name: "aff", Value: urls[(gi+i)%4].String()})
+				rr.ServeHTTP(httptest.NewRecorder(), req)
+			}
+		})
+	}
+
 	// 4. rate limiter: many sources concurrently; every request is either served or rejected
 	{
 		scenarios++
